@@ -283,6 +283,13 @@ class Path:
                 return True
         return False
 
+    def entails(self, term, value=True):
+        """Do the branch decisions of this path force `term` to have truth value `value`?"""
+        t = self.truth(term)
+        if t is not None:
+            return t == value
+        return self.possible({term: not value}) is False
+
     @staticmethod
     def _atoms_consistent(asg):
         eq = {}
@@ -556,6 +563,12 @@ class Evaluator:
         cur = self.expr(load, p)
         v = self.expr(st.value, p)
         new = ("binop", _BINOPS.get(type(st.op), "?"), cur, v)
+        if isinstance(st.target, ast.Name) and isinstance(st.op, (ast.BitOr, ast.BitAnd)) and strip_mut(cur)[0] == "param":
+            # `param |= x` mutates a set argument in place (and rebinds the local to the same object)
+            new = ("mut", cur, "__ior__" if isinstance(st.op, ast.BitOr) else "__iand__", (v,))
+        elif isinstance(st.target, ast.Name) and isinstance(st.op, ast.Add) and strip_mut(cur)[0] == "param" and (v[0] in ("param", "list", "comp") or (v[0] == "call" and v[1] == ("builtin", "list"))) and v[0:2] != ("comp", "gen"):
+            # `param += [..]` / `param += other_list` extends a list argument in place
+            new = ("mut", cur, "__iadd__", (v,))
         self.assign(st.target, new, p, st, None)
         return [p]
 
@@ -996,6 +1009,8 @@ class Evaluator:
             kwargs = []
             for k in node.keywords:
                 kwargs.append((k.arg, ev(k.value)))
+            if f == ("builtin", "divmod") and len(args) == 2 and not kwargs:
+                return ("tuple", (("binop", "//", args[0], args[1]), ("binop", "%", args[0], args[1])))
             callee = self.resolve_package_callee(f, p)
             if callee is not None and not any(a[0] == "star" for a in args) and not any(k is None for k, _ in kwargs):
                 args, kwargs = canonical_args(callee[0], callee[1], args, kwargs)
